@@ -29,7 +29,7 @@ def run(payload: dict):
     except KeyError:
         raise
     except Exception as e:  # a native crash while replaying is itself worth reporting by the caller
-        return f"replay raised {type(e).__name__}: {e}"
+        return f"replay-raised-{type(e).__name__}: {e}"
 
 
 def _close(a, b, tol=1e-7):
@@ -50,13 +50,13 @@ def _(p):
     if not numpy.all(numpy.isfinite(out)):
         return None  # outside the domain (zero variance)
     if p["center"] and not _close(float(out.sum()), 0.0, 1e-6):
-        return f"scale(center=True): sum of output = {out.sum()}"
+        return f"mean-not-zero: scale(center=True) sum of output = {out.sum()}"
     if p["scale"] and not _close(float((out**2).sum()), n - p["ddof"], 1e-6):
-        return f"scale(scale=True, ddof={p['ddof']}): sum of squares = {(out**2).sum()} != {n - p['ddof']}"
+        return f"sd-not-one: scale(scale=True, ddof={p['ddof']}) sum of squares = {(out**2).sum()} != {n - p['ddof']}"
     if not p["scale"] and not numpy.allclose(out, x - x.mean()):
-        return "scale(scale=False) is not x - mean"
+        return "not-centered: scale(scale=False) is not x - mean"
     if st.get("ddof") != p["ddof"]:
-        return f"recorded ddof {st.get('ddof')} != {p['ddof']}"
+        return f"ddof-not-recorded: recorded ddof {st.get('ddof')} != {p['ddof']}"
     return None
 
 
@@ -67,7 +67,7 @@ def _(p):
     x = numpy.array(p["x"], dtype=float)
     out = center(x, _state={})
     if not numpy.allclose(out, x - x.mean(), atol=1e-9 * max(1, abs(x).max())):
-        return f"center(x) != x - mean: {out}"
+        return f"not-centered: center(x) != x - mean, {out}"
     return None
 
 
@@ -80,7 +80,7 @@ def _(p):
     if not numpy.all(numpy.isfinite(out)):
         return None
     if not _close(float(out.sum()), 0, 1e-6) or not _close(float((out**2).sum()), len(x), 1e-6):
-        return f"standardize: sum={out.sum()} sumsq={(out**2).sum()} (want 0, {len(x)})"
+        return f"not-standardized: sum={out.sum()} sumsq={(out**2).sum()} (want 0, {len(x)})"
     return None
 
 
@@ -99,12 +99,12 @@ def _(p):
     if p["S"] is not None:
         want = want / p["S"]
     if not numpy.allclose(out, want, rtol=1e-9, atol=1e-12):
-        return f"scale with recorded state gave {out}, want {want}"
+        return f"state-not-applied: scale with recorded state gave {out}, want {want}"
     if st != {"ddof": 1, "center": p["C"], "scale": p["S"]}:
-        return f"state mutated: {st}"
+        return f"state-mutated: {st}"
     out1 = scale(y[1:], center=p["flags"][0], scale=p["flags"][1], ddof=0, _state=st)
     if not numpy.allclose(out1, want[1:], rtol=1e-9, atol=1e-12):
-        return "row depends on the other rows"
+        return "row-dependence: row depends on the other rows"
     return None
 
 
@@ -120,9 +120,9 @@ def _(p):
         return None
     g = out.T @ out
     if not numpy.allclose(g, numpy.eye(p["degree"]), atol=1e-6):
-        return f"poly columns not orthonormal: gram={g.tolist()}"
+        return f"not-orthonormal: poly gram={g.tolist()}"
     if not numpy.allclose(out.sum(axis=0), 0, atol=1e-6):
-        return f"poly columns not orthogonal to the constant: {out.sum(axis=0)}"
+        return f"not-orthogonal-to-constant: poly column sums {out.sum(axis=0)}"
     return None
 
 
@@ -146,12 +146,12 @@ def _(p):
     for i in range(len(y)):
         want = _poly_ref(y[i], p["alpha"], p["norms2"], deg)
         if not numpy.allclose(out[i], want, rtol=1e-7, atol=1e-9):
-            return f"poly with recorded state: row {i} = {out[i].tolist()}, recurrence gives {want}"
+            return f"recurrence-mismatch: poly with recorded state, row {i} = {out[i].tolist()}, recurrence gives {want}"
     out1 = numpy.asarray(poly(y[1:], degree=deg, _state=st))
     if not numpy.allclose(out1[0], out[1], rtol=1e-9, atol=1e-12):
-        return "poly row depends on other rows"
+        return "row-dependence: poly row depends on other rows"
     if st != {"alpha": dict(enumerate(p["alpha"])), "norms2": dict(enumerate(p["norms2"]))}:
-        return "poly mutated the recorded state"
+        return "state-mutated: poly mutated the recorded state"
     return None
 
 
@@ -167,10 +167,10 @@ def _(p):
     out = numpy.asarray(poly(numpy.array(full), degree=2, _state={}))
     ref = numpy.asarray(poly(numpy.array(xs), degree=2, _state={}))
     if not numpy.all(numpy.isnan(out[p["pos"]])):
-        return f"NaN row did not propagate: {out[p['pos']]}"
+        return f"nan-not-propagated: {out[p['pos']]}"
     rest = numpy.delete(out, p["pos"], axis=0)
     if not numpy.allclose(rest, ref, atol=1e-8):
-        return "non-null rows differ from the fit on the non-null subvector"
+        return "nan-changes-other-rows: non-null rows differ from the fit on the non-null subvector"
     return None
 
 
@@ -181,7 +181,7 @@ def _(p):
     x = numpy.array(p["x"], dtype=float)
     out = numpy.asarray(poly(x, degree=3, raw=True))
     want = numpy.stack([x, x**2, x**3], axis=1)
-    return None if numpy.allclose(out, want) else f"poly(raw=True) = {out.tolist()}"
+    return None if numpy.allclose(out, want) else f"raw-powers-wrong: poly(raw=True) = {out.tolist()}"
 
 
 _REF = {
@@ -207,7 +207,7 @@ def _(p):
         got = float(TRANSFORMS[p["name"]](numpy.array([v]))[0])
         want = _REF[p["name"]](v)
         if not _close(got, want, 1e-9):
-            return f"{p['name']}({v}) = {got}, the function of that name gives {want}"
+            return f"wrong-function: {p['name']}({v}) = {got}, the function of that name gives {want}"
     return None
 
 
@@ -220,8 +220,181 @@ def _(p):
             continue
         got = float(TRANSFORMS[p["log"]](TRANSFORMS[p["exp"]](numpy.array([v])))[0])
         if not _close(got, v, 1e-9):
-            return f"{p['log']}({p['exp']}({v})) = {got}"
+            return f"not-inverse: {p['log']}({p['exp']}({v})) = {got}"
     return None
+
+
+# ------------------------------------------------------------------------------------------------ C12 (scipy as the native reference)
+
+
+def _bs_ref_float(x, knots, degree, extend):
+    from scipy.interpolate import BSpline
+
+    t = numpy.array(knots, dtype=float)
+    nb = len(t) - degree - 1
+    out = []
+    for i in range(nb):
+        c = numpy.zeros(nb)
+        c[i] = 1.0
+        v = BSpline(t, c, degree, extrapolate=True)(x)
+        out.append(float(v))
+    if not extend and not (t[0] <= x <= t[-1]):
+        return None
+    return out
+
+
+@replay("c12_bs")
+def _(p):
+    from formulaic.transforms import TRANSFORMS
+
+    bs = TRANSFORMS["bs"]
+    cfg = p["cfg"]
+    x = float(p["x"])
+    st = dict(cfg["state"]) if cfg.get("state") is not None else {}
+    kw = dict(degree=cfg["degree"], include_intercept=cfg["include_intercept"], extrapolation=cfg["extrapolation"])
+    if cfg.get("state") is None:
+        kw.update(knots=cfg["knots"], lower_bound=cfg["lower_bound"], upper_bound=cfg["upper_bound"])
+    for xv in (x,):
+        try:
+            out = bs(numpy.array([xv]), _state=st, **kw)
+        except ValueError as e:
+            lo, hi = st["lower_bound"], st["upper_bound"]
+            if cfg["extrapolation"] == "raise" and not (lo <= xv <= hi):
+                return None
+            return f"raises-inside-bounds: bs raised {e} for x={xv}"
+        lo, hi = st["lower_bound"], st["upper_bound"]
+        inside = lo <= xv <= hi
+        mode = cfg["extrapolation"]
+        if mode == "raise" and not inside:
+            return f"no-raise-outside-bounds: bs(extrapolation='raise') returned a value for x={xv} outside [{lo},{hi}]"
+        knots, degree = st["knots"], cfg["degree"]
+        nb = len(knots) - degree - 1
+        keys = [i for i in range(nb) if i > 0 or cfg["include_intercept"]]
+        if list(out.keys()) != keys:
+            return f"wrong-columns: bs columns {list(out.keys())} != {keys}"
+        got = [float(out[i][0]) for i in keys]
+        if inside or mode == "extend":
+            want = _bs_ref_float(xv, knots, degree, True)
+        elif mode == "clip":
+            want = _bs_ref_float(min(max(xv, lo), hi), knots, degree, True)
+        elif mode == "zero":
+            want = [0.0] * nb
+        elif mode == "na":
+            return None if all(math.isnan(g) for g in got) else f"no-nan-outside-bounds: bs(extrapolation='na') gave {got} outside the bounds"
+        want = [want[i] for i in keys]
+        if any(math.isnan(g) for g in got) or not numpy.allclose(got, want, atol=1e-8):
+            return f"basis-mismatch: bs({ {k: v for k, v in cfg.items() if k != 'state'} }) at x={xv} gives {got} but the B-spline basis on knots {knots} is {want}"
+        if inside and (min(got) < -1e-12):
+            return f"negative-value: {got}"
+    return None
+
+
+def _crs_ref_float(x, knots, cyclic):
+    from scipy.interpolate import CubicSpline
+
+    t = numpy.array(knots, dtype=float)
+    n = len(t)
+    nb = n - 1 if cyclic else n
+    out = []
+    for j in range(nb):
+        y = numpy.zeros(n)
+        y[j] = 1.0
+        if cyclic and j == 0:
+            y[-1] = 1.0
+        cs = CubicSpline(t, y, bc_type="periodic" if cyclic else "natural")
+        if cyclic:
+            P = t[-1] - t[0]
+            xe = t[0] + (x - t[0]) % P
+            out.append(float(cs(xe)))
+        elif x < t[0]:
+            out.append(float(cs(t[0]) + cs(t[0], 1) * (x - t[0])))
+        elif x > t[-1]:
+            out.append(float(cs(t[-1]) + cs(t[-1], 1) * (x - t[-1])))
+        else:
+            out.append(float(cs(x)))
+    return out
+
+
+@replay("c12_crs")
+def _(p):
+    from formulaic.transforms import TRANSFORMS
+
+    cfg = p["cfg"]
+    f = TRANSFORMS["cc" if cfg["cyclic"] else "cr"]
+    kn = cfg["knots"]
+    lo, hi = kn[0], kn[-1]
+    x = float(p["x"])
+    mode = cfg["extrapolation"]
+    inside = lo <= x <= hi
+    try:
+        out = f(numpy.array([x]), knots=kn[1:-1], lower_bound=lo, upper_bound=hi, extrapolation=mode, _state={})
+    except ValueError as e:
+        if mode == "raise" and not inside:
+            return None
+        return f"raises-inside-bounds: cubic spline raised {e}"
+    if mode == "raise" and not inside:
+        return "no-raise-outside-bounds: extrapolation='raise' returned outside the bounds"
+    got = [float(out[k][0]) for k in out]
+    if not inside and mode == "na":
+        return None if all(math.isnan(g) for g in got) else f"no-nan-outside-bounds: 'na' gave {got}"
+    if not inside and mode == "zero":
+        return None if numpy.allclose(got, 0) else f"no-zero-outside-bounds: 'zero' gave {got}"
+    xe = min(max(x, lo), hi) if mode == "clip" else x
+    want = _crs_ref_float(xe, kn, cfg["cyclic"])
+    if len(got) != len(want) or not numpy.allclose(got, want, atol=1e-7):
+        return f"basis-mismatch: {'cc' if cfg['cyclic'] else 'cr'}(knots={kn}, {mode}) at x={x} gives {got}, interpolating-spline cardinal basis gives {want}"
+    return None
+
+
+@replay("c12_crs_identity")
+def _(p):
+    from formulaic.transforms import TRANSFORMS
+
+    f = TRANSFORMS["cc" if p["cyclic"] else "cr"]
+    kn = p["knots"]
+    out = f(numpy.array(kn), knots=kn[1:-1], lower_bound=kn[0], upper_bound=kn[-1], _state={})
+    m = numpy.stack([out[k] for k in out], axis=1)
+    n = len(kn)
+    want = numpy.eye(n) if not p["cyclic"] else numpy.vstack([numpy.eye(n - 1), numpy.eye(n - 1)[0:1]])
+    return None if m.shape == want.shape and numpy.allclose(m, want, atol=1e-9) else f"not-identity-at-knots: {m.tolist()}"
+
+
+@replay("c12_crs_center")
+def _(p):
+    from formulaic.transforms import TRANSFORMS
+
+    f = TRANSFORMS["cc" if p["cyclic"] else "cr"]
+    out = f(numpy.array(p["train"]), df=p["df"], constraints="center", _state={})
+    m = numpy.stack([out[k] for k in out], axis=1)
+    if m.shape[1] != p["df"]:
+        return f"wrong-column-count: {m.shape[1]} columns for df={p['df']}"
+    return None if numpy.allclose(m.mean(axis=0), 0, atol=1e-9) else f"not-centered: column means {m.mean(axis=0)}"
+
+
+@replay("c12_crs_center_replay")
+def _(p):
+    from formulaic.transforms import TRANSFORMS
+
+    f = TRANSFORMS["cc" if p["cyclic"] else "cr"]
+    st = {}
+    f(numpy.array(p["train"]), df=p["df"], constraints="center", _state=st)
+    kn = st["knots"]
+    nb = len(kn) - 1 if p["cyclic"] else len(kn)
+    atk = f(numpy.array(kn[:nb]), _state=st)
+    Z = numpy.stack([atk[k] for k in atk], axis=1)
+    x = float(p["x"])
+    got = f(numpy.array([x]), _state=st)
+    got = numpy.array([got[k][0] for k in got])
+    want = numpy.array(_crs_ref_float(x, kn, p["cyclic"])) @ Z
+    return None if numpy.allclose(got, want, atol=1e-7) else f"basis-mismatch: constrained basis at x={x} is {got} vs {want}"
+
+
+@replay("c12_bs_df")
+def _(p):
+    from formulaic.transforms import TRANSFORMS
+
+    out = TRANSFORMS["bs"](numpy.array(p["train"]), df=p["df"], degree=p["degree"], include_intercept=p["ii"], _state={})
+    return None if len(out) == p["df"] else f"wrong-column-count: bs(df={p['df']}) gave {len(out)} columns"
 
 
 # ------------------------------------------------------------------------------------------------ CLI
@@ -241,3 +414,5 @@ if __name__ == "__main__":
         sys.exit(1)
     print("does not reproduce")
     sys.exit(0)
+
+
